@@ -159,7 +159,8 @@ LocData(font, axes, maps, u, extraErr) ==
       jump == \E r \in 1..Len(font.regions) : \E a \in 1..Len(axes) :
                  NearJump(font.regions[r][a], x[a], nx[a][2] = "exact" /\ extraErr[a] = 0)
       mulbad == \E r \in 1..Len(font.regions) : ~IsZeroF(fs[r]) /\ \E i \in 1..Len(fs[r]) : ~FxMulOk(fs[r][i])
-  IN [x |-> x, bad |-> bad \/ mulbad, fs |-> fs, lip |-> lip, jump |-> jump]
+  IN [x |-> x, ex |-> TLCEval([a \in 1..Len(axes) |-> nx[a][2] = "exact" /\ extraErr[a] = 0]),
+      bad |-> bad \/ mulbad, fs |-> fs, lip |-> lip, jump |-> jump]
 
 (* value of one item: <<value, number of fixed-point multiplications>>; v = <<region index, delta>> *)
 RECURSIVE ItemValFrom(_, _, _, _, _)
@@ -258,8 +259,12 @@ ActiveFeatures(fv, x) ==
                IF \E s \in 1..Len(rec.subs) : rec.subs[s][1] = f
                THEN rec.subs[CHOOSE s \in 1..Len(rec.subs) : rec.subs[s][1] = f][2]
                ELSE fv.feat[f]])
-NearCond(fv, x) == \E r \in 1..Len(fv.recs) : \E c \in 1..Len(fv.recs[r].box) :
-   LET b == fv.recs[r].box[c] IN IAbsV(x[b[1]] - b[2]) <= 2 \/ IAbsV(x[b[1]] - b[3]) <= 2
+(* a condition bound and a coordinate that are both half-unit roundings may compare either way
+   when they are within 2 units of each other; an exactly known coordinate ON a bound is decisive *)
+NearCond(fv, x, ex) == \E r \in 1..Len(fv.recs) : \E c \in 1..Len(fv.recs[r].box) :
+   LET b == fv.recs[r].box[c]
+       near(bound) == LET d == IAbsV(x[b[1]] - bound) IN (0 < d /\ d <= 2) \/ (d = 0 /\ ~ex[b[1]])
+   IN near(b[2]) \/ near(b[3])
 (* D-FV1 on a real font: some record of the original is satisfied on the whole new space without
    a condition on a remaining axis *)
 FvDeviationFont(fv, nl14, pinned) ==
@@ -269,8 +274,9 @@ FvDeviationFont(fv, nl14, pinned) ==
           LET b == fv.recs[r].box[c] IN b[2] <= nl14[b[1]] /\ nl14[b[1]] <= b[3]
 
 (* verdict of all items at one location: a set of clause names *)
-AtLocFont(r, O, I, axesO, mapsO, axesI, mapsI, lims, errO, errI, ER, ERS, u) ==
-  LET kept == Kept(lims)
+AtLocFont(r, O, I, axesO, mapsO, axesI, mapsI, lims, errO, errI, ER, ERS, q) ==
+  LET u == TLCEval([a \in 1..Len(r.locs[q]) |-> RJ(r.locs[q][a])])
+      kept == Kept(lims)
       u2 == TLCEval([j \in 1..Len(kept) |-> u[kept[j]]])
       dO == LocData(O, axesO, mapsO, u, errO)
       dI == LocData(I, axesI, mapsI, u2, errI)
@@ -288,15 +294,25 @@ AtLocFont(r, O, I, axesO, mapsO, axesI, mapsI, lims, errO, errI, ER, ERS, u) ==
                        + vo[2] + vi[2] + a.inf + b.inf
                        + CoordSlackFrom(b.v, dI.lip, 2, 1, 1, 0)
                        + CoordSlackFrom(a.v, dO.lip, 0, 0, 1, 0)
-        IN diff <= allowed
+        IN <<diff, allowed>>
       fvO == SelectSeq(ActiveFeatures(O.fv, dO.x), LAMBDA f : Len(f) > 1)     \* a feature without lookups does nothing
       fvI == SelectSeq(ActiveFeatures(I.fv, dI.x), LAMBDA f : Len(f) > 1)
+      nearCond == NearCond(O.fv, dO.x, dO.ex) \/ NearCond(I.fv, dI.x, dI.ex)
+      (* HarfBuzz's observations (harness/hb.py), judged by the same inequality: its advances are
+         integers, i.e. one more half unit of rounding on each side *)
+      hbAdvBad == \E e \in 1..Len(r.hbadv) :
+                    LET da == item(r.hbadv[e][1]) IN IAbsV(r.hbadv[e][3][q] - r.hbadv[e][2][q]) * FX > da[2] + FX
+      hbSubBad == Len(r.hbsub) > 0 /\ r.hbsub[q][1] # r.hbsub[q][2]
   IN IF dO.bad \/ dI.bad THEN {"skip:overflow"}
      ELSE (IF dO.jump \/ dI.jump THEN {"skip:near-discontinuity"}
-           ELSE IF \E i \in 1..Len(O.items) : O.items[i].rel = 0 /\ ~item(i) THEN {"Preserved"} ELSE {})
+           ELSE IF \E i \in 1..Len(O.items) : O.items[i].rel = 0 /\ LET da == item(i) IN da[1] > da[2] THEN {"Preserved"}
+           ELSE IF hbAdvBad THEN {"Preserved:advance-observed-by-harfbuzz"} ELSE {})
           \cup (IF fvO = fvI THEN {}
-                ELSE IF NearCond(O.fv, dO.x) \/ NearCond(I.fv, dI.x) THEN {"skip:near-condition-boundary"}
+                ELSE IF nearCond THEN {"skip:near-condition-boundary"}
                 ELSE {"FeatureVars"})
+          \cup (IF ~hbSubBad THEN {}
+                ELSE IF nearCond THEN {"skip:near-condition-boundary"}
+                ELSE {"FeatureVars:observed-by-harfbuzz"})
 
 (* items compared relative to the new default location (HVAR of a 'glyf' font: the default advance
    comes from 'gvar', so only the variation part of HVAR is the instancer's) *)
@@ -356,7 +372,7 @@ JFont(r) ==
       ERS == TLCEval(SetToSeq(UNION {ERR[q] : q \in 1..Len(ERR)}))          \* all distinct exact regions
       ER == TLCEval([q \in 1..Len(ERR) |-> {i \in 1..Len(ERS) : ERS[i] \in ERR[q]}])
       erBad == \E i \in 1..Len(ERS) : RegBad(ERS[i])
-      res == UNION {AtLocFont(r, O, I, axesO, mapsO, axesI, mapsI, lims, errO, errI, ER, ERS, u) : u \in ulocs}
+      res == UNION {AtLocFont(r, O, I, axesO, mapsO, axesI, mapsI, lims, errO, errI, ER, ERS, q) : q \in 1..Len(r.locs)}
       hasRel == \E i \in 1..Len(O.items) : O.items[i].rel = 1
       resRel == IF hasRel THEN UNION {AtLocRel(r, O, I, axesO, mapsO, axesI, mapsI, lims, errO, errI, ER, ERS, u) : u \in ulocs} ELSE {}
       all == res \cup resRel
@@ -369,6 +385,8 @@ JFont(r) ==
   IN IF Len(lims) # Len(axesO) \/ Len(O.items) # Len(I.items) THEN "malformed:font-shape"
      ELSE IF ~WellFormedLimits([axes |-> axesO], lims) THEN "malformed:limits"
      ELSE IF \E q \in 1..Len(r.locs) : Len(r.locs[q]) # Len(axesO) THEN "malformed:locations"
+     ELSE IF Len(r.hbsub) \notin {0, Len(r.locs)} \/ \E e \in 1..Len(r.hbadv) : Len(r.hbadv[e][2]) # Len(r.locs) \/ Len(r.hbadv[e][3]) # Len(r.locs)
+          THEN "malformed:harfbuzz-observations"
      ELSE IF \E u \in ulocs : ~InNewSpace(lims, u) THEN "malformed:location-outside"
      ELSE IF hasAvarO /\ \E a \in 1..Len(axesO) : limErr[a] # 0 THEN "skip:inexact-limit-with-avar"
      ELSE IF ~domOk THEN "skip:tent-outside-domain"
@@ -390,8 +408,10 @@ JFont(r) ==
      (* Preserved / FeatureVars at every location *)
      ELSE IF "Preserved" \in all THEN "Preserved"
      ELSE IF "Preserved:relative" \in all THEN "Preserved:relative"
-     ELSE IF "FeatureVars" \in all THEN
-          (IF FvDeviationFont(O.fv, nl14, pinned) THEN "FeatureVars:applied-record-without-remaining-conditions" ELSE "FeatureVars")
+     ELSE IF "Preserved:advance-observed-by-harfbuzz" \in all THEN "Preserved:advance-observed-by-harfbuzz"
+     ELSE IF "FeatureVars" \in all \/ "FeatureVars:observed-by-harfbuzz" \in all THEN
+          (IF FvDeviationFont(O.fv, nl14, pinned) THEN "FeatureVars:applied-record-without-remaining-conditions"
+           ELSE IF "FeatureVars" \in all THEN "FeatureVars" ELSE "FeatureVars:observed-by-harfbuzz")
      ELSE IF \E c \in all : c = "skip:overflow" THEN "skip:overflow"
      ELSE IF \E c \in all : c = "skip:near-discontinuity" THEN "skip:near-discontinuity"
      ELSE IF \E c \in all : c = "skip:near-condition-boundary" THEN "skip:near-condition-boundary"
